@@ -35,6 +35,7 @@ def run(ctx: Ctx):
     valid_elements_chain(ctx)
     nan_mapping(ctx)
     reshape(ctx)
+    axis_order(ctx)
     extraction(ctx)
     wiring(ctx)
 
@@ -451,3 +452,62 @@ def wiring(ctx: Ctx):
             f"self._cube.{vc} if self._cube.{vc} is not None else self._cube.{plain}",
             "valid counts replace counts when the response carries them",
         )
+
+
+# --------------------------------------------------------------------------- axis order of the raw tensor
+def axis_order(ctx: Ctx):
+    """`Dimensions.dimension_order` says which payload axis belongs to which dimension.  It is a finite decision
+    table over (number of dimensions, which dimension types are present): evaluated here on a model of every
+    shape of cube with up to three raw dimensions.  A numeric-array dimension is listed FIRST in the dimensions
+    but is the LAST axis of the payload, so the order is the rotation (1, .., n-1, 0); every other cube is laid
+    out in dimension order.  The two consumers (shape of the reshape, per-axis valid indices) must both index
+    through it."""
+    from ..dectab import DTop, ModelInterp, Raises
+
+    dims_cls = ctx.repo.cls("dimension.py", "Dimensions")
+    m = ctx.repo.lookup(dims_cls, "dimension_order")
+    if m is None:
+        raise AnalysisError("Dimensions.dimension_order vanished")
+    body = SUMMARIZER.summarize(m.node)
+    NA, CAT, MRS, MRC, CAS, CAC = "DT.NUM_ARRAY", "DT.CAT", "DT.MR_SUBVAR", "DT.MR_CAT", "DT.CA_SUBVAR", "DT.CA_CAT"
+    shapes = [
+        [], [CAT], [NA], [MRS, MRC][:1],
+        [CAT, CAT], [MRS, MRC], [CAS, CAC], [NA, CAT], [NA, CAS],
+        [CAT, CAT, CAT], [CAT, MRS, MRC], [MRS, MRC, CAT], [CAS, CAC, CAT],
+        [NA, CAT, CAT], [NA, MRS, MRC], [NA, CAS, CAC], [NA, CAT, CAS],
+    ]
+    for types in shapes:
+        n = len(types)
+        want = tuple(range(1, n)) + (0,) if (n >= 2 and types[0] == NA) else tuple(range(n))
+        model = tuple({".dimension_type": t} for t in types)
+
+        def atoms(e, model=model):
+            if isinstance(e, ast.Name) and e.id == "self":
+                return model
+            if isinstance(e, ast.Attribute) and isinstance(e.value, ast.Name) and e.value.id == "DT":
+                return "DT." + e.attr
+            raise KeyError
+
+        construct = f"dimension.py::Dimensions.dimension_order [{' x '.join(t[3:] for t in types) or '0-D'}]"
+        try:
+            got = ModelInterp(atoms).ev(body)
+            got = tuple(got) if isinstance(got, (list, tuple)) else got
+        except (DTop, Raises) as exc:
+            ctx.undecided("axis-order", construct, f"not evaluable on the model: {exc}", expected=str(want))
+            continue
+        ctx.count("axis-order table rows")
+        if got == want:
+            ctx.held("axis-order", construct, str(got), str(want))
+        else:
+            ctx.violated("axis-order", construct, str(got), str(want), "payload axes would be attributed to the wrong dimensions")
+    ctx.require_min("axis-order table rows", 12)
+    # consumers
+    shape = ctx.repo.lookup(dims_cls, "shape")
+    vidx = ctx.repo.lookup(ctx.repo.cls("cube.py", "Cube"), "_valid_idxs")
+    if shape is None or vidx is None:
+        raise AnalysisError("consumer of dimension_order vanished (Dimensions.shape / Cube._valid_idxs)")
+    ctx.check_expr("axis-order.consumer", "dimension.py::Dimensions.shape", SUMMARIZER.summarize(shape.node),
+                   ["tuple((d.shape for d in [self[i] for i in self.dimension_order]))", "tuple((self[i].shape for i in self.dimension_order))"])
+    ctx.check_expr("axis-order.consumer", "cube.py::Cube._valid_idxs", SUMMARIZER.summarize(vidx.node),
+                   ["tuple((np.ix_(*tuple((d.valid_elements.element_idxs for d in self._all_dimensions)))[i] for i in self._all_dimensions.dimension_order))"])
+    ctx.count("axis-order consumers", 2)
